@@ -356,13 +356,16 @@ def process_environment(hashseed):
         "epoch": r.choice((0.0, 86399.0, 946684799.0, 1700000000.0, 4102444800.0)) + r.randrange(10 ** 6),
         "tick": r.choice((1e-6, 0.001, 0.75, 61.0, 86400.0)),
         "cpu_count": r.choice((1, 2, 16, 128)),
+        # order in which the keys of an option mapping (string sizes) are listed
+        "perm_seed": r.getrandbits(30),
         # interpreter optimisation level of the tool process (python, python -O, python -OO)
         "optimize": r.choice((0, 0, 0, 0, 0, 1, 2)),
         "cwd": r.choice(CWDS),
         "environ": {"TZ": r.choice(TZS), "USER": r.choice(("root", "alice", "bob")),
                     "LOGNAME": r.choice(("root", "alice")), "HOME": r.choice(("/root", "/home/alice", "/")),
                     "HOSTNAME": r.choice(("coco", "build-7", "localhost")),
-                    "COLUMNS": str(r.choice((20, 80, 200))), "LINES": str(r.choice((5, 24, 100))),
+                    "COLUMNS": str(r.choice((1, 4, 20, 80, 200))), "LINES": str(r.choice((1, 5, 24, 100))),
+                    "TERM": r.choice(("dumb", "xterm-256color", "")),
                     "LANG": r.choice(("C", "C.UTF-8", "en_US.UTF-8", "POSIX"))},
     }
 
@@ -422,6 +425,7 @@ def _blame_environment(op, seed, pa, pb, ra):
             tz = mix["environ"]["TZ"]
             mix["environ"] = dict(pb["environ"], TZ=tz)
             mix["cpu_count"] = pb.get("cpu_count")
+            mix["perm_seed"] = pb.get("perm_seed")
         if _alone(op, seed, mix) != ra:
             return comp, mix
     return "combination", pb
@@ -434,6 +438,8 @@ def _shrink_text(op, pred, budget=40):
     text = op["text"]
     sep = "\r" if "\r" in text and "\n" not in text else "\n"
     lines = [x for x in text.replace("\r", "\n").split("\n") if x.strip()]
+    if not pred(dict(op, text=sep.join(lines) + sep)):
+        return op          # the normalised spelling no longer shows it: keep the text as it is
     tries = 0
     changed = True
     while changed and len(lines) > 1 and tries < budget:
